@@ -72,12 +72,25 @@ def atom(src, k):
     return Cell(((src, k),), 0b10)
 
 
-def _combine(a, b, fn):
+_COMBINE_CACHE = {}
+
+
+def _combine(a, b, fn, tag=None):
     if a is TOP or b is TOP:
         return TOP
-    vs = tuple(sorted(set(a.vars) | set(b.vars), key=repr))
+    if a.vars == b.vars:
+        vs = a.vars
+    else:
+        vs = tuple(sorted(set(a.vars) | set(b.vars), key=repr))
     if len(vs) > MAXV:
         return TOP
+    key = None
+    if tag is not None:
+        key = (tag, tuple(vs.index(v) for v in a.vars), a.table,
+               tuple(vs.index(v) for v in b.vars), b.table, len(vs))
+        hit = _COMBINE_CACHE.get(key)
+        if hit is not None:
+            return Cell(tuple(vs[i] for i in hit[0]), hit[1])
     table = 0
     for i in range(1 << len(vs)):
         env = {v: (i >> j) & 1 for j, v in enumerate(vs)}
@@ -85,7 +98,10 @@ def _combine(a, b, fn):
         bv = _eval(b, env)
         if fn(av, bv):
             table |= 1 << i
-    return _simplify(Cell(vs, table))
+    r = _simplify(Cell(vs, table))
+    if key is not None:
+        _COMBINE_CACHE[key] = (tuple(vs.index(v) for v in r.vars), r.table)
+    return r
 
 
 def _eval(c, env):
@@ -125,17 +141,25 @@ def _simplify(c):
 def c_and(a, b):
     if a == ZERO or b == ZERO:
         return ZERO
-    return _combine(a, b, lambda x, y: x & y)
+    if a == ONE and b is not TOP:
+        return b
+    if b == ONE and a is not TOP:
+        return a
+    return _combine(a, b, lambda x, y: x & y, 'and')
 
 
 def c_or(a, b):
     if a == ONE or b == ONE:
         return ONE
-    return _combine(a, b, lambda x, y: x | y)
+    if a == ZERO and b is not TOP:
+        return b
+    if b == ZERO and a is not TOP:
+        return a
+    return _combine(a, b, lambda x, y: x | y, 'or')
 
 
 def c_xor(a, b):
-    return _combine(a, b, lambda x, y: x ^ y)
+    return _combine(a, b, lambda x, y: x ^ y, 'xor')
 
 
 def c_not(a):
